@@ -5,7 +5,9 @@ VERIF_SEED only rotates the order in which shards are handed out; the set of
 shards, and therefore the covered space, is seed independent.
 """
 
+import faulthandler
 import multiprocessing
+import signal
 import os
 import traceback
 
@@ -16,6 +18,7 @@ _WORKER_FN = None
 
 def _call(shard):
     try:
+        faulthandler.register(signal.SIGUSR1, all_threads=True)
         part = Partial()
         _WORKER_FN(shard, part)
         return part, None
